@@ -24,11 +24,13 @@ Fixpoint walk_down (pm : pmap) (thr : Z) (fenced : bool) (path : list queue) : o
           else walk_down pm (thr - q_offset c) fenced t
       end
   end.
-(* the part of a root-first path strictly below the queue with the given id; None if it is not on the path *)
-Fixpoint below (id : N) (l : list queue) : option (list queue) :=
-  match l with
-  | [] => None
-  | q :: t => if N.eqb (q_id q) id then Some t else below id t
+(* "inside the fence": the root-first path of the fence is a prefix of the root-first path of the victim's queue;
+   the result is the rest of the path (the queues strictly below the fence) *)
+Fixpoint strip_prefix (p l : list queue) : option (list queue) :=
+  match p, l with
+  | [], _ => Some l
+  | x :: p', y :: l' => if N.eqb (q_id x) (q_id y) then strip_prefix p' l' else None
+  | _ :: _, [] => None
   end.
 
 (* queue preemption: the victim side of C07 *)
@@ -37,7 +39,7 @@ Definition queue_victim_eligible (w : world) (a : alloc) : bool :=
   match fence_of w, find_queue (w_queues w) (a_queue a) with
   | Some (fence, pm), Some lq =>
       q_leaf lq && negb (N.eqb (q_ppol lq) 2) &&
-      match pm_get pm (q_id fence), below (q_id fence) (rev (chain w (a_queue a))) with
+      match pm_get pm (q_id fence), strip_prefix (rev (chain w (q_id fence))) (rev (chain w (a_queue a))) with
       | Some p0, Some path =>                       (* inside the asker's preemption fence *)
           match walk_down pm p0 false path with
           | Some (thr, fenced) => fenced || (a_prio a <=? thr)   (* does not outrank unless priority fenced *)
@@ -84,11 +86,18 @@ Fixpoint taken_over_guarantee (w : world) (sn : snaps) (vs : list alloc) : bool 
 Definition freed_on_node (nid : N) (avail : ores) (vs : list alloc) : ores :=
   fold_left (fun acc v => if N.eqb (a_node v) nid then AddTo acc (a_res v) else acc) vs avail.
 Definition covers_ask (w : world) (nid : N) (vs : list alloc) : bool :=
-  FitIn (freed_on_node nid (node_avail w nid) vs) (ask_res w).
+  FitIn (node_avail w nid) (ask_res w) || FitIn (freed_on_node nid (node_avail w nid) vs) (ask_res w).
+
+(* the second pass of calculateVictimsByNode together with the snapshot every accepted victim was tested on *)
+Definition second_step_tr (w : world) (st : spass * list (alloc * snaps)) (v : alloc) : spass * list (alloc * snaps) :=
+  let s' := second_step w (fst st) v in
+  (s', if fst (victim_check w (sp_sn (fst st)) v) then snd st ++ [(v, sp_sn (fst st))] else snd st).
+Definition second_pass_tr (w : world) (avail : ores) (head : list alloc) : spass * list (alloc * snaps) :=
+  fold_left (second_step_tr w) head (mkSP (Duplicate (init_snaps w)) avail [] (-1), []).
 
 (* quota: the claimed total stays within the preemptable amount for every type of it *)
 Definition claimed_within (p claimed : ores) : bool :=
-  forallb (fun kv => getz (oget claimed) (fst kv) <=? snd kv) (oget p).
+  forallb (fun kv => match get (oget claimed) (fst kv) with Some c => c <=? snd kv | None => true end) (oget p).
 (* the preemptable amount of a queue is at most what it uses above its maximum *)
 Definition within_excess (q : queue) (p : ores) : bool :=
   let used := SubOnlyExisting (q_alloc q) (q_preempting q) in
